@@ -160,6 +160,121 @@ def reachable(code, instrs):
 
 _MISSING = object()
 _OPAQUE = object()
+_COMP_NAMES = ("<genexpr>", "<listcomp>", "<setcomp>", "<dictcomp>")
+
+
+def cell_states(code, instrs, live, params):
+    """definite assignment of the cell variables of `code` (the locals its inner functions read), by a forward
+    data-flow over the control-flow graph without exception edges (a `try` body is taken to run to its end):
+    returns, for every live instruction index, the set of cells certainly bound *before* it"""
+    cells = set(code.co_cellvars)
+    idx = {ins.offset: k for k, ins in enumerate(instrs)}
+    n = len(instrs)
+
+    def succs(k):
+        ins = instrs[k]
+        op = ins.opname
+        if op in _NO_FALLTHROUGH:
+            return []
+        if op in _JUMPS_UNCOND:
+            return [idx.get(ins.argval, n)]
+        if op.startswith("POP_JUMP_IF_") or op in ("FOR_ITER", "SEND"):
+            taken = None
+            if op in ("POP_JUMP_IF_FALSE", "POP_JUMP_IF_TRUE"):
+                v = static_test_value(instrs, k)
+                if v is not None:
+                    taken = (not v) if op == "POP_JUMP_IF_FALSE" else v
+            out = []
+            if taken is not True:
+                out.append(k + 1)
+            if taken is not False:
+                out.append(idx.get(ins.argval, n))
+            return out
+        return [k + 1]
+
+    before = {0: frozenset(cells & params)}
+    work = [0]
+    while work:
+        k = work.pop()
+        if k >= n:
+            continue
+        st = set(before[k])
+        ins = instrs[k]
+        if ins.opname == "STORE_DEREF" and ins.argval in cells:
+            st.add(ins.argval)
+        elif ins.opname == "DELETE_DEREF":
+            st.discard(ins.argval)
+        st = frozenset(st)
+        for s2 in succs(k):
+            if s2 >= n:
+                continue
+            new = st if s2 not in before else before[s2] & st
+            if s2 not in before or new != before[s2]:
+                before[s2] = new
+                work.append(s2)
+    return before
+
+
+def closure_problems(code, instrs, before, impvals_at):
+    """reads of `code`'s cell variables by the inner functions it creates (not by its own comprehensions): when the
+    statement that creates the inner function is done, the cell must be bound -- else the inner function can be
+    called with the cell unbound (NameError: free variable referenced before assignment); a cell bound by an import
+    is followed through attribute chains like a global.  The moment looked at is the instruction after the one that
+    stores the new function (a `def`), or after the one that creates it (a lambda)."""
+    problems, n = [], 0
+    cells = set(code.co_cellvars)
+
+    def reads(k, vis, reader_is_owner, certainly, impvals):
+        nonlocal n
+        is_comp = k.co_name in _COMP_NAMES
+        is_class = not (k.co_flags & 0x2)
+        inner_is_owner = reader_is_owner and (is_comp or is_class)
+        if not is_class and not inner_is_owner:
+            kin = list(dis.get_instructions(k))
+            klive, _ = reachable(k, kin)
+            for i, ins in enumerate(kin):
+                if i in klive and ins.opname in ("LOAD_DEREF", "LOAD_CLASSDEREF") and ins.argval in vis \
+                        and ins.argval != "__class__":
+                    name = ins.argval
+                    n += 1
+                    if name not in certainly:
+                        problems.append({"kind": "NameError", "name": name, "unbound_local": True,
+                                         "inner": k.co_qualname})
+                        continue
+                    val = impvals.get(name)
+                    j = i + 1
+                    while is_lena_module(val) and j < len(kin) and kin[j].opname in ("LOAD_ATTR", "LOAD_METHOD"):
+                        a = kin[j].argval
+                        if not hasattr(val, a):
+                            problems.append({"kind": "AttributeError", "name": a, "on": val.__name__, "root": name,
+                                             "inner": k.co_qualname})
+                            break
+                        val = getattr(val, a)
+                        j += 1
+        for c in k.co_consts:
+            if isinstance(c, types.CodeType):
+                v2 = vis & set(c.co_freevars)
+                if v2:
+                    reads(c, v2, inner_is_owner, certainly, impvals)
+
+    for i, ins in enumerate(instrs):
+        if ins.opname == "LOAD_CONST" and isinstance(ins.argval, types.CodeType) and i in before:
+            k = ins.argval
+            vis = cells & set(k.co_freevars)
+            if not vis:
+                continue
+            # the end of the creating statement: after MAKE_FUNCTION (and the decorators' calls), after the store
+            j = i + 1
+            while j < len(instrs) and instrs[j].opname != "MAKE_FUNCTION":
+                j += 1
+            j += 1
+            while j < len(instrs) and instrs[j].opname in ("CALL", "PRECALL", "KW_NAMES", "CACHE"):
+                j += 1
+            if j < len(instrs) and instrs[j].opname in ("STORE_FAST", "STORE_DEREF", "STORE_NAME", "STORE_GLOBAL"):
+                j += 1
+            certainly = before.get(j, before.get(i, frozenset()))
+            reads(k, vis, True, certainly, impvals_at)
+    return n, problems
 
 
 def analyse(code, mod, do_imports):
@@ -175,6 +290,7 @@ def analyse(code, mod, do_imports):
     instrs = list(dis.get_instructions(code))
     leaders = {i.offset for i in instrs if i.is_jump_target}
     live, _ = reachable(code, instrs)
+    greads, gstores, gdeletes = set(), set(), set()
     # locals that only import statements bind (the compiler's view of `import lena.flow` inside a function):
     # reading one of them where no import has bound it is an UnboundLocalError, a NameError
     n_params = code.co_argcount + code.co_kwonlyargcount + bool(code.co_flags & 0x4) + bool(code.co_flags & 0x8)
@@ -196,6 +312,8 @@ def analyse(code, mod, do_imports):
         elif op not in ("LOAD_CONST", "SWAP"):
             depth = 0
     import_only = {n for n, k in import_stores.items() if stores.get(n) == k and n not in params}
+    cells = set(code.co_cellvars)
+    impvals = {}                        # the module an import statement bound a cell variable to
     stack = []            # the values of an import statement in progress
     consts = []           # the last LOAD_CONST values (level, fromlist)
     implocals = {}        # local name -> object bound by an import statement
@@ -249,6 +367,13 @@ def analyse(code, mod, do_imports):
             if stack:
                 stack.pop()
         elif op in ("STORE_FAST", "STORE_DEREF", "STORE_NAME", "STORE_GLOBAL"):
+            if op == "STORE_GLOBAL":
+                gstores.add(ins.argval)
+            if op == "STORE_DEREF" and ins.argval in cells:
+                if stack and stack[-1] is not None:
+                    impvals[ins.argval] = stack[-1]
+                else:
+                    impvals.pop(ins.argval, None)
             if stack:
                 val = stack.pop()
                 if op in ("STORE_FAST", "STORE_DEREF"):
@@ -264,6 +389,7 @@ def analyse(code, mod, do_imports):
                 name = ins.argval
                 if op in ("LOAD_GLOBAL", "LOAD_NAME"):
                     n_loads += 1
+                    greads.add(name)
                     if name in g:
                         val, found = g[name], True
                     elif hasattr(builtins, name):
@@ -288,11 +414,19 @@ def analyse(code, mod, do_imports):
                     val = getattr(val, a)
                     j += 1
             elif op == "DELETE_GLOBAL":
+                gdeletes.add(ins.argval)
                 if ins.argval not in g:
                     problems.append({"kind": "NameError", "name": ins.argval})
             elif op == "DELETE_FAST":
                 implocals.pop(ins.argval, None)
-    return n_loads, problems
+    if cells and code.co_name not in _COMP_NAMES:
+        n_par = code.co_argcount + code.co_kwonlyargcount + bool(code.co_flags & 0x4) + bool(code.co_flags & 0x8)
+        before = cell_states(code, instrs, live, set(code.co_varnames[:n_par]))
+        nc, pc = closure_problems(code, instrs, before, impvals)
+        n_loads += nc
+        problems.extend(pc)
+    return {"loads": n_loads, "problems": problems, "greads": sorted(greads), "gstores": sorted(gstores),
+            "gdeletes": sorted(gdeletes)}
 
 
 def has_imports(code):
@@ -345,7 +479,8 @@ def static_probe(repo, pkg, subpackages):
                 key = max(cands, key=lambda k: k[1]) if cands else (q, c.co_firstlineno)
             else:
                 key = (q, c.co_firstlineno)
-            ent = per.setdefault(key, {"loads": 0, "problems": [], "forked": False})
+            ent = per.setdefault(key, {"loads": 0, "problems": [], "forked": False, "greads": [], "gstores": [],
+                                       "gdeletes": []})
             if has_imports(c):
                 ent["forked"] = True
                 r, w = os.pipe()
@@ -366,11 +501,25 @@ def static_probe(repo, pkg, subpackages):
                     data += chunk
                 os.close(r)
                 os.waitpid(pid, 0)
-                nl, pr = json.loads(data.decode()) if data else (0, [{"kind": "probe-error", "name": "child died"}])
+                res = json.loads(data.decode()) if data else \
+                    {"loads": 0, "problems": [{"kind": "probe-error", "name": "child died"}], "greads": [],
+                     "gstores": [], "gdeletes": []}
             else:
-                nl, pr = analyse(c, m, False)
-            ent["loads"] += nl
-            ent["problems"].extend(pr)
+                res = analyse(c, m, False)
+            ent["loads"] += res["loads"]
+            ent["problems"].extend(res["problems"])
+            for k in ("greads", "gstores", "gdeletes"):
+                ent[k] = sorted(set(ent[k]) | set(res[k]))
+        # a function that deletes a global at call time (`global n; del n`): every function of the module that reads
+        # or deletes `n` fails when it is called afterwards -- the deleting function itself when it is called twice
+        deleted = {}
+        for (q, line), ent in per.items():
+            for nm in ent["gdeletes"]:
+                deleted.setdefault(nm, q)
+        for (q, line), ent in per.items():
+            for nm, by in deleted.items():
+                if (nm in ent["greads"] or nm in ent["gdeletes"]) and nm in vars(m):
+                    ent["problems"].append({"kind": "NameError", "name": nm, "after_call_of": by})
         for (q, line), ent in per.items():
             funcs[f"{n}|{q}|{line}"] = ent
     out["funcs"] = funcs
